@@ -15,8 +15,9 @@ import (
 	"verif/harness/vk"
 )
 
-// texts of the findings that are known while the proposed fixes are not committed
-// (known_findings/C04.json matches on these prefixes)
+// texts of the findings of the defects repaired by d549efb, e3b45a5, 9ae1e79, 89781aa, e30fc04
+// (known_findings/C04.json, status fixed): their directed replays run on every check and a
+// recurrence is reported as a violation
 const (
 	fD1 = "index misses keys with MaxBulkSize>1 (key aliasing in indexSince)"
 	fD2 = "injective index keeps a stale mapped key inside a bulk (indexSince looks up as of txID-1, not txID+i-1)"
@@ -26,12 +27,16 @@ const (
 	fD5 = "injective index stalls: source-index GetBetween below the key's oldest version returns a foreign transaction (tbtree lastUpdateBetween, C10)"
 )
 
-// which of the proposed repairs are present in the code under test (probed on every run)
+// The model evaluated by Tie.C04 is fixed (all_fixed = the code of /repo): every index
+// configuration is expected to agree with the specification under every bulk schedule.  The flags
+// only exist so that `affected` has one place saying so.
 type Flags struct{ Copy, TxID, Tomb, SnapHist, Cap bool }
 
-func (f Flags) coq() string {
-	return fmt.Sprintf("(mkfx %s %s %s %s) %s", vk.Bool(f.Copy), vk.Bool(f.TxID), vk.Bool(f.Tomb), vk.Bool(f.Cap), vk.Bool(f.SnapHist))
-}
+var allFixed = Flags{true, true, true, true, true}
+
+// set when the crash probe (D6) found the indexer panic again: the random runs then stay within what
+// the bulk buffer holds, so that the harness survives to report it
+var crashSeen bool
 
 func pick[T any](rng *rand.Rand, xs ...T) T { return xs[rng.Intn(len(xs))] }
 
@@ -382,9 +387,8 @@ func runHistory1(r *sink, rs runSpec, bucketPrefix string) error {
 	}
 	g.maxEs = g.sc.MaxTxEs
 	for _, c := range g.idxs {
-		if c.Inj && c.Src == 2 && !rs.flags.Cap {
-			// an index that writes tombstones needs two items per entry; the code under test
-			// pre-allocates one (probe D6: the process dies): stay within what it can hold
+		if c.Inj && c.Src == 2 && crashSeen {
+			// the indexer panic is back (reported by probe D6): stay within what the buffer holds
 			g.maxEs = g.sc.MaxTxEs / 2
 		}
 	}
@@ -536,7 +540,7 @@ func runHistory1(r *sink, rs runSpec, bucketPrefix string) error {
 				for i, b := range batches {
 					bs[i] = fmt.Sprintf("%d%%nat", b)
 				}
-				coq := fmt.Sprintf("CModel %s %s (mklim %d %d) %d\n  %s\n  %d%%nat %s %s\n  %s", rs.flags.coq(), c.coq(), g.sc.MaxKeyLen, g.sc.MaxTxEs, now, h4History(s.h),
+				coq := fmt.Sprintf("CModel %s (mklim %d %d) %d\n  %s\n  %d%%nat %s %s\n  %s", c.coq(), g.sc.MaxKeyLen, g.sc.MaxTxEs, now, h4History(s.h),
 					g.sc.MaxBulk, vk.List(bs), vk.Bool(stalled), coqQOs(qos))
 				js["kind"] = "model"
 				r.Case(coq, js, "model/"+bk, nontriv)
